@@ -211,7 +211,8 @@ def gen_step(w, rng):
 
 def maybe_fault(w, rng, st):
     """Fault configuration: arm one storage fault inside a step that touches the store."""
-    if w.faults_left > 0 and st["op"] in ("ds_write", "arr_write", "h_set", "read", "disk_assign", "disk_index") and rng.random() < 0.35:
+    if w.faults_left > 0 and st["op"] in ("ds_write", "arr_write", "read", "disk_assign", "disk_index", "unlim_extend") and not w.handles \
+            and not st.get("recovery") and rng.random() < 0.35:
         w.faults_left -= 1
         st["fault"] = {"frac": rng.random(), "kind": w.cfg["fault_kind"], "survive": rng.random()}
     return st
@@ -420,6 +421,8 @@ def x_ds_write(w, s):
         ds.write_nc(path, mode=mode, **_fmt(w, s))
     except Exception as e:
         absorb_unknown(w, path)
+        if s.get("recovery") and w.props:
+            raise Violation("C20" if "C20" in w.props else "C19", "fault_recovery", "after the faults stopped, a fresh Dataset.write_nc(%s, mode='w') still raises %s: %s" % (path, type(e).__name__, str(e)[:200]))
         if "C19" in w.props:
             raise Violation("C19", "write_raises", "Dataset.write_nc(%s, mode=%r) raises %s: %s" % (path, mode, type(e).__name__, str(e)[:200]))
         return "raise:" + type(e).__name__
@@ -679,6 +682,8 @@ def x_read(w, s):
     except Skip:
         raise
     except Exception as e:
+        if s.get("recovery") and w.props:
+            raise Violation("C20" if "C20" in w.props else "C19", "fault_recovery", "after the faults stopped and the file was rewritten, %s still raises %s: %s" % (what, type(e).__name__, str(e)[:200]))
         if check:
             raise Violation("C19", "rt_equal", "%s raises %s: %s" % (what, type(e).__name__, str(e)[:200]))
         return "raise:" + type(e).__name__
